@@ -10,6 +10,7 @@ import (
 	"math"
 
 	structform "github.com/elastic/go-structform"
+	"github.com/elastic/go-structform/gotype"
 )
 
 func canonToI64(c []int) int64 {
@@ -652,6 +653,35 @@ func runFault(c *Case, tr *Trace) {
 		for k := 1; k <= total; k++ {
 			guard(k, func(r *FaultRun) {
 				rec, err := parse(k)
+				r.Reported = err != nil
+				r.Same = err != nil && errors.Is(err, errInjected)
+				r.After = rec.After
+				if err != nil {
+					r.At = 1
+				}
+			})
+		}
+	case "fold":
+		t := subTD(c, "T")
+		v := subVD(c, "V")
+		pv := newValue(&t, &v)
+		fold := func(failAt int) (*Recorder, error) {
+			rec := &Recorder{FailAt: failAt}
+			it, err := gotype.NewIterator(rec)
+			if err != nil {
+				panic("harness: NewIterator: " + err.Error())
+			}
+			return rec, it.Fold(pv.Elem().Interface())
+		}
+		rec, err := fold(0)
+		if err != nil {
+			tr.Extra = map[string]interface{}{"runs": []FaultRun{}, "total": 0, "skipped": err.Error()}
+			return
+		}
+		total = len(rec.Events)
+		for k := 1; k <= total; k++ {
+			guard(k, func(r *FaultRun) {
+				rec, err := fold(k)
 				r.Reported = err != nil
 				r.Same = err != nil && errors.Is(err, errInjected)
 				r.After = rec.After
